@@ -12,6 +12,7 @@ import itertools
 import json
 import os
 import threading
+import time
 import weakref
 
 from vlib import sqlo
@@ -67,44 +68,76 @@ class Deadlock(Exception):
     pass
 
 
+def _taken_lock():
+    l = threading.Lock()
+    l.acquire()
+    return l
+
+
+class _Worker(threading.Thread):
+    """a reusable real thread: runs one managed-thread body per run (creating OS threads for every one of the ~15 000
+    runs of a check costs more than the runs themselves)"""
+
+    def __init__(self):
+        threading.Thread.__init__(self, daemon=True)
+        self.wake = _taken_lock()
+        self.job = None
+        self.running = False
+        self.start()
+
+    def run(self):
+        while True:
+            self.wake.acquire()
+            job, self.job = self.job, None
+            try:
+                job()
+            finally:
+                self.running = False
+
+    def submit(self, job):
+        self.running = True
+        self.job = job
+        self.wake.release()
+
+
+_POOL = []
+
+
+def _workers(n):
+    # a worker still busy with an abandoned (deadlocked) run is replaced
+    for k in range(len(_POOL)):
+        if _POOL[k].running:
+            _POOL[k] = _Worker()
+    while len(_POOL) < n:
+        _POOL.append(_Worker())
+    return _POOL[:n]
+
+
 class Sched:
-    """One managed thread runs at a time.  `grant(t)` lets thread t perform the access it is parked at
-    and run on to its next shared access (or to its end)."""
+    """One managed thread runs at a time.  The thread that reaches a scheduling point decides itself, from the
+    schedule, who performs the next action: if it is its own turn it just goes on, otherwise it wakes that thread
+    and parks (one hand-over per context switch of the schedule, none while a thread keeps running).
+    A schedule entry for a thread that is finished or blocked on a held cache lock is skipped; after the schedule
+    the lowest enabled thread runs, until none is enabled."""
 
     def __init__(self, n):
         self.n = n
-        self.go = [threading.Semaphore(0) for _ in range(n)]
-        self.back = threading.Semaphore(0)
+        # binary semaphores as raw locks (locked = 0, released = 1): strictly alternating release/acquire
+        self.go = [_taken_lock() for _ in range(n)]
+        self.back = _taken_lock()         # to the main thread: set-up step done / run over
         self.parked = [None] * n          # (kind, lockobj-or-None) the thread is parked at
         self.done = [False] * n
         self.tids = {}                    # thread ident -> tid
         self.trace = []
         self.hang = False
         self.active = True
+        self.phase = 'setup'
+        self.schedule = []
+        self.pos = 0
 
     def me(self):
         return self.tids.get(threading.get_ident())
 
-    # ---- thread side
-    def point(self, kind, lock=None):
-        t = self.me()
-        if t is None or not self.active:
-            return
-        self.parked[t] = (kind, lock)
-        self.back.release()
-        self.go[t].acquire()
-        self.parked[t] = None
-
-    def thread_main(self, t, fn):
-        self.tids[threading.get_ident()] = t
-        self.go[t].acquire()              # wait for the scheduler to start us
-        try:
-            fn()
-        finally:
-            self.done[t] = True
-            self.back.release()
-
-    # ---- scheduler side
     def enabled(self, t):
         if self.done[t] or self.parked[t] is None:
             return False
@@ -113,40 +146,81 @@ class Sched:
             return False
         return True
 
+    def choose(self):
+        """the thread to perform the next action (None: nobody can), consuming the schedule"""
+        sch = self.schedule
+        while self.pos < len(sch):
+            u = sch[self.pos]
+            self.pos += 1
+            if 0 <= u < self.n and self.enabled(u):
+                return u
+        for u in range(self.n):           # drain: lowest enabled thread first
+            if self.enabled(u):
+                return u
+        return None
+
+    def hand_over(self, t):
+        """called by the thread in control (t, or None for the main thread) when it cannot go on by itself;
+        returns True when t itself is chosen"""
+        u = self.choose()
+        if u is None:
+            self.back.release()           # run over (or deadlock): tell the main thread
+            return False
+        self.trace.append('%d:%s' % (u, self.parked[u][0]))
+        self.parked[u] = None
+        if u == t:
+            return True
+        self.go[u].release()
+        return False
+
+    # ---- thread side
+    def point(self, kind, lock=None):
+        t = self.me()
+        if t is None or not self.active:
+            return
+        self.parked[t] = (kind, lock)
+        if self.phase == 'setup':
+            self.back.release()
+            self.go[t].acquire()
+            return
+        if not self.hand_over(t):
+            self.go[t].acquire()
+
+    def thread_main(self, t, fn):
+        self.tids[threading.get_ident()] = t
+        self.go[t].acquire()              # wait for the set-up turn
+        try:
+            fn()
+        finally:
+            self.done[t] = True
+            self.parked[t] = None
+            if not self.active:
+                pass
+            elif self.phase == 'setup':
+                self.back.release()
+            else:
+                self.hand_over(t)
+
+    # ---- main thread
     def wait_back(self):
         if not self.back.acquire(timeout=WATCHDOG_S):
             self.hang = True
             raise Deadlock('watchdog: a managed thread neither parked nor finished within %ss' % WATCHDOG_S)
 
     def start(self, fns):
-        self.threads = []
+        self.threads = _workers(len(fns))
         for t, fn in enumerate(fns):
-            th = threading.Thread(target=self.thread_main, args=(t, fn), daemon=True)
-            self.threads.append(th)
-            th.start()
+            self.threads[t].submit(lambda t=t, fn=fn: self.thread_main(t, fn))
         for t in range(self.n):           # run every thread up to its first shared access, one at a time
             self.go[t].release()
             self.wait_back()
 
-    def grant(self, t):
-        if not self.enabled(t):
-            return False
-        self.trace.append('%d:%s' % (t, self.parked[t][0]))
-        self.go[t].release()
-        self.wait_back()
-        return True
-
     def run(self, schedule):
-        for t in schedule:
-            if 0 <= t < self.n:
-                self.grant(t)
-        while True:                        # drain: lowest enabled thread first
-            for t in range(self.n):
-                if self.enabled(t):
-                    self.grant(t)
-                    break
-            else:
-                break
+        self.schedule = list(schedule)
+        self.pos = 0
+        self.phase = 'run'
+        self.hand_over(None)              # wakes the first thread, or releases `back` at once
+        self.wait_back()
         return [t for t in range(self.n) if not self.done[t]]
 
     def abandon(self):
@@ -154,7 +228,10 @@ class Sched:
         self.active = False
         for t in range(self.n):
             if not self.done[t]:
-                self.go[t].release()
+                try:
+                    self.go[t].release()
+                except RuntimeError:
+                    pass
 
 
 class ILock:
@@ -362,17 +439,15 @@ def env():
     from sqlobject.sqlite.sqliteconnection import SQLiteConnection
 
     class Conn(SQLiteConnection):
+        """every STATEMENT sent to the shared raw connection is a scheduling point (not every high-level call: an
+        insert that needs a second statement to learn the new id can be interleaved with another thread's insert)"""
         sched = None
 
-        def queryInsertID(self, *a, **kw):
+        def _executeRetry(self, conn, cursor, query):
             if self.sched is not None:
-                self.sched.point('db.insert')
-            return SQLiteConnection.queryInsertID(self, *a, **kw)
-
-        def _SO_selectOne(self, *a, **kw):
-            if self.sched is not None:
-                self.sched.point('db.select')
-            return SQLiteConnection._SO_selectOne(self, *a, **kw)
+                q = query.lstrip()[:6].upper()
+                self.sched.point('db.insert' if q == 'INSERT' else 'db.select' if q == 'SELECT' else 'db.other')
+            return SQLiteConnection._executeRetry(self, conn, cursor, query)
 
     base = cache_mod.CacheFactory
 
@@ -430,21 +505,48 @@ def env():
                 IFactory.sched.point('cc.read')
             return self._cc
 
-    conn = Conn(':memory:', check_same_thread=False)
-    _env.update(conn=conn, cache_mod=cache_mod, base=base, IFactory=IFactory, SQLObject=SQLObject, IntCol=IntCol,
-                n=0)
+    _env.update(Conn=Conn, conns={}, classes={}, cache_mod=cache_mod, base=base, IFactory=IFactory, SQLObject=SQLObject,
+                IntCol=IntCol, n=0)
     return _env
 
 
-def the_class():
-    """one table for all runs; every run starts from an emptied table and a fresh CacheSet"""
+# How the shared in-memory connection is configured.  Variant 0 passes Python booleans; the others go through the
+# URI / option-string path with the documented spellings of a boolean ("case ignored": false/no/off/0, true/yes/on/1).
+# (URI query string for doCache=True, for doCache=False)
+CONN_VARIANTS = (
+    None,
+    ('check_same_thread=False', 'check_same_thread=False&cache=False'),
+    ('check_same_thread=No&cache=Yes', 'check_same_thread=No&cache=No'),
+    ('check_same_thread=OFF&cache=ON', 'check_same_thread=OFF&cache=OFF'),
+    ('check_same_thread=false&cache=true', 'check_same_thread=false&cache=0'),
+    ('check_same_thread=0&cache=1', 'check_same_thread=0&cache=FALSE'),
+)
+
+
+def the_conn(variant, dc):
     e = env()
-    if 'cls' not in e:
+    key = (variant, bool(dc))
+    if key not in e['conns']:
+        Conn = e['Conn']
+        if CONN_VARIANTS[variant] is None:
+            conn = Conn(':memory:', check_same_thread=False, cache=bool(dc))
+        else:
+            conn = Conn.connectionFromURI('sqlite:/:memory:?' + CONN_VARIANTS[variant][0 if dc else 1])
+        e['conns'][key] = conn
+    return e['conns'][key]
+
+
+def the_class(conn, k=0):
+    """the k-th class of a connection: one table each for all runs; every run starts from emptied tables and a
+    fresh CacheSet"""
+    e = env()
+    key = (id(conn), k)
+    if key not in e['classes']:
         name = sqlo.uniq('C09T')
-        cls = type(name, (e['SQLObject'],), {'_connection': e['conn'], 'v': e['IntCol'](default=0)})
+        cls = type(name, (e['SQLObject'],), {'_connection': conn, 'v': e['IntCol'](default=0)})
         cls.createTable()
-        e['cls'] = cls
-    return e['cls']
+        e['classes'][key] = cls
+    return e['classes'][key]
 
 
 # --------------------------------------------------------------------------------------------- one run
@@ -487,25 +589,39 @@ def model_line(init, progs, sched):
                progs_str(progs), ','.join(map(str, sched)) or '-'))
 
 
+def thread_classes(init, progs):
+    """class index of every thread (default: all threads use class 0, the one the initial cache state is about)"""
+    t = list(init.get('tcls') or [])
+    return (t + [0] * len(progs))[:len(progs)]
+
+
 def run_real(init, progs, sched):
-    """init: dict(caches, strong=[ids], weak=[ids], db=[ids], freq, frac, cc, off).
+    """init: dict(caches, strong=[ids], weak=[ids], db=[ids], freq, frac, cc, off [, dc, pins, conn, tcls]).
+    `conn`: how the connection is configured (CONN_VARIANTS); `tcls`: the class each thread works on - class 0 starts
+    in the described cache state, every other class has the same rows and has never been used on the connection.
     Returns a dict with the raw outcome (objects are real instances)."""
     e = env()
-    cache_mod, conn, IFactory = e['cache_mod'], e['conn'], e['IFactory']
-    cls = the_class()
+    cache_mod, IFactory = e['cache_mod'], e['IFactory']
+    dc = bool(init.get('dc', True))
+    conn = the_conn(init.get('conn', 0) % len(CONN_VARIANTS), dc)
+    tcls = thread_classes(init, progs)
+    ncls = max(tcls) + 1 if tcls else 1
+    classes = [the_class(conn, k) for k in range(ncls)]
+    cls = classes[0]
     s = Sched(len(progs))
     IFactory.sched = s
     cache_mod.CacheFactory = IFactory
     old_cache = conn.cache
     try:
-        dc = bool(init.get('dc', True))
-        cs = cache_mod.CacheSet(cache=dc, cullFrequency=init['freq'], cullFraction=init['frac'])
+        # the CacheSet of the connection, in the mode the connection was CONFIGURED with
+        cs = cache_mod.CacheSet(cache=conn.doCache, cullFrequency=init['freq'], cullFraction=init['frac'])
         cs.caches = ICaches(s)
         conn.cache = cs
         # rows (uninstrumented: the main thread is not a managed thread)
-        conn.query('DELETE FROM %s' % cls.sqlmeta.table)
-        for i in init['db']:
-            conn.query('INSERT INTO %s (id, v) VALUES (%d, %d)' % (cls.sqlmeta.table, i, i))
+        for c in classes:
+            conn.query('DELETE FROM %s' % c.sqlmeta.table)
+            for i in init['db']:
+                conn.query('INSERT INTO %s (id, v) VALUES (%d, %d)' % (c.sqlmeta.table, i, i))
         pinned = []
         if init['caches']:
             objs = [cls.get(i) for i in cached_ids(init)]
@@ -522,12 +638,15 @@ def run_real(init, progs, sched):
             del objs
         outs = [[] for _ in progs]
 
-        def do(op):
+        def do(op, cls):
             k = op[0]
             if k == 'g':
                 return ('obj', op[1], cls.get(op[1]))
             if k == 'c':
                 return ('obj', op[1], cls(id=op[1], v=op[1]))
+            if k == 'ca':                      # the database chooses the id
+                o = cls(v=0)
+                return ('obj', o.id, o)
             if k == 'x':
                 conn.cache.expire(op[1], cls)
                 return ('unit',)
@@ -547,7 +666,7 @@ def run_real(init, progs, sched):
             def fn():
                 for op in progs[t]:
                     try:
-                        outs[t].append(do(op))
+                        outs[t].append(do(op, classes[tcls[t]]))
                     except BaseException as ex:   # an exception of the real code is an outcome
                         n = sqlo.exc_name(ex)
                         if n == 'NotFound':
@@ -561,7 +680,6 @@ def run_real(init, progs, sched):
             return fn
 
         conn.sched = s
-        deadlock = False
         hang = None
         try:
             s.start([body(t) for t in range(len(progs))])
@@ -571,23 +689,61 @@ def run_real(init, progs, sched):
             unfinished = [t for t in range(s.n) if not s.done[t]]
         finally:
             conn.sched = None
-        cf = dict.get(cs.caches, cls.__name__)
-        res = {
-            'outs': [list(o) for o in outs], 'unfinished': unfinished, 'hang': hang, 'trace': list(s.trace), 'pinned': pinned,
-            'lock': None if cf is None else cf.lock.holder,
-            'strong': [] if cf is None else list(cf._strong.d.items()),
-            'weak': [] if cf is None else [(k, r()) for k, r in cf._weak.d.items()],
-            'cc': 0 if cf is None else cf._cc, 'off': 0 if cf is None else cf.cullOffset,
-        }
+        per_class = []
+        for k, c in enumerate(classes):
+            cf = dict.get(cs.caches, c.__name__)
+            per_class.append({
+                'cls': c, 'lock': None if cf is None else cf.lock.holder,
+                'strong': [] if cf is None else list(cf._strong.d.items()),
+                'weak': [] if cf is None else [(i, r()) for i, r in cf._weak.d.items()],
+                'cc': 0 if cf is None else cf._cc, 'off': 0 if cf is None else cf.cullOffset,
+                'pinned': pinned if k == 0 else [], 'factory': cf})
+        res = {'outs': [list(o) for o in outs], 'unfinished': unfinished, 'hang': hang, 'trace': list(s.trace),
+               'tcls': tcls, 'classes': per_class}
+        res.update((key, per_class[0][key]) for key in ('lock', 'strong', 'weak', 'cc', 'off', 'pinned'))
         if unfinished:
             s.abandon()
-            for th in s.threads:
-                th.join(timeout=5.0)
+            t_end = time.time() + 5.0
+            while any(th.running for th in s.threads) and time.time() < t_end:
+                time.sleep(0.01)
         return res
     finally:
         cache_mod.CacheFactory = e['base']
         conn.cache = old_cache
         IFactory.sched = None
+
+
+def project(init, progs, sched, r, k):
+    """the part of a run that concerns class k: its threads (renumbered 0..), their programs with every automatic
+    id replaced by the id the database handed out, their part of the schedule and of the trace, its cache.
+    In the code the classes of one connection share nothing but the CacheSet.caches dict (distinct keys), so this
+    is what a run of class k alone, under the projected schedule, must look like."""
+    tcls = r['tcls']
+    ts = [t for t in range(len(progs)) if tcls[t] == k]
+    ren = dict((t, n) for n, t in enumerate(ts))
+    sub = []
+    for t in ts:
+        p = []
+        for n, op in enumerate(progs[t]):
+            if op[0] == 'ca':
+                out = r['outs'][t][n] if n < len(r['outs'][t]) else None
+                p.append(('c', out[1] if out and out[0] == 'obj' else 900 + 10 * t + n))
+            else:
+                p.append(op)
+        sub.append(p)
+    if k == 0:
+        init_k = dict((key, v) for key, v in init.items() if key != 'tcls')
+    else:                              # never used on this connection; same rows; same configuration
+        init_k = dict((key, v) for key, v in init.items() if key not in ('tcls', 'pins'))
+        init_k.update(caches=False, strong=[], weak=[], cc=0, off=0)
+    c = r['classes'][k]
+    r_k = {'outs': [r['outs'][t] for t in ts], 'unfinished': [ren[t] for t in r['unfinished'] if t in ren],
+           'hang': r['hang'], 'tcls': [0] * len(ts), 'classes': [c],
+           'trace': ['%d:%s' % (ren[int(x.split(':')[0])], x.split(':', 1)[1]) for x in r['trace']
+                     if int(x.split(':')[0]) in ren],
+           'lock': None if c['lock'] is None else ren.get(c['lock'], 'other-class:%s' % c['lock'])}
+    r_k.update((key, c[key]) for key in ('strong', 'weak', 'cc', 'off', 'pinned'))
+    return init_k, sub, [ren[t] for t in sched if t in ren], r_k
 
 
 class Numbering:
@@ -669,10 +825,17 @@ INITS = (('warm', WARM), ('cold', COLD), ('cully', CULLY), ('warmu', WARMU), ('n
 
 
 def init_tag(init):
-    """short deterministic name of an initial state"""
-    for name, i in INITS:
+    """short deterministic name of an initial state (the connection variant is not part of it)"""
+    tcls = init.get('tcls')
+    init = dict((k, v) for k, v in init.items() if k not in ('conn', 'tcls'))
+    suffix = ('.cls' + ''.join(map(str, tcls))) if tcls and max(tcls) > 0 else ''
+    for name, i in INITS + (('nocache-cold', NOCACHE_COLD),):
         if init == i:
-            return name
+            return name + suffix
+    return _long_tag(init) + suffix
+
+
+def _long_tag(init):
     return '%sc%d.s%s.w%s.d%s.f%d.r%d.n%d.o%d.p%s' % (
         '' if init.get('dc', True) else 'nc.', 1 if init['caches'] else 0, '_'.join(map(str, init['strong'])) or '-', '_'.join(map(str, init['weak'])) or '-',
         '_'.join(map(str, init['db'])) or '-', init['freq'], init['frac'], init['cc'], init['off'],
@@ -688,12 +851,47 @@ def _two_threads(ts, us):
     return any(t != u for t in ts for u in us)
 
 
-def oracle(init, progs, r):
-    """The five clauses of C09 on the RAW outcome of the real code (the model is not involved).
-    Returns a list of (key, what)."""
-    fails = []
+def oracle_all(init, progs, r):
+    """the oracle for a run on one or several classes of one connection: the five clauses per class, plus: a thread
+    gets an instance of the class it asked for, and two classes never share a cache"""
+    ncls = len(r['classes'])
     ptxt = progs_str(progs)
     tag = init_tag(init)
+    fails = []
+    for k in range(ncls):
+        init_k, sub, _, r_k = project(init, progs, [], r, k)
+        fails += oracle(init_k, sub, r_k, ptxt=ptxt, tag=tag)
+    seen = set()
+    for t, t_outs in enumerate(r['outs']):
+        want = r['classes'][r['tcls'][t]]['cls']
+        for n, out in enumerate(t_outs):
+            if out[0] == 'obj' and type(out[2]) is not want and 'mix' not in seen:
+                seen.add('mix')
+                fails.append(('C09:class-mixup:%s:%s' % (ptxt, tag),
+                              'thread %d op %d (%s) asked for a %s and holds a %s (programs %s, state %s)'
+                              % (t, n, op_str(progs[t][n]), want.__name__, type(out[2]).__name__, ptxt, tag)))
+    for a in range(ncls):
+        for b in range(a + 1, ncls):
+            fa, fb = r['classes'][a]['factory'], r['classes'][b]['factory']
+            if fa is not None and fa is fb and 'share' not in seen:
+                seen.add('share')
+                fails.append(('C09:class-mixup:%s:%s' % (ptxt, tag),
+                              'classes %d and %d of the connection share one CacheFactory (one id->instance dict, one '
+                              'lock) (programs %s, state %s)' % (a, b, ptxt, tag)))
+    out, keys = [], set()
+    for key, what in fails:                 # one report per key
+        if key not in keys:
+            keys.add(key)
+            out.append((key, what))
+    return out
+
+
+def oracle(init, progs, r, ptxt=None, tag=None):
+    """The five clauses of C09 on the RAW outcome of the real code for ONE class (the model is not involved).
+    Returns a list of (key, what)."""
+    fails = []
+    ptxt = ptxt or progs_str(progs)
+    tag = tag or init_tag(init)
 
     creators = _threads_with(progs, lambda op: op[0] == 'c')
     create_vs_expire_all = _two_threads(creators, _threads_with(progs, lambda op: op[0] == 'A'))
@@ -839,6 +1037,9 @@ def two_thread_schedules(visit, cap):
 
 # --------------------------------------------------------------------------------------------- cases
 PAIR_OPS = [('g', 1), ('g', 4), ('g', 3), ('g', 9), ('c', 7), ('x', 1), ('A',), ('C',)]
+# gets that, in the given state, behave exactly like ('g', 1) (cold: every existing row is a first-use miss; cully: rows 1
+# and 4 are both strong hits): the quick tier keeps them only in the pair with ('g', 1) itself (two different ids)
+DUPLICATE_GETS = {'cold': {('g', 4), ('g', 3)}, 'cully': {('g', 4)}}
 
 # the known findings, replayed on every run (schedules found by experiment; effective grants only)
 W_RT = dict(init=WARM, progs=[[('c', 7)], [('A',)]],          # 1: acquire, first next() | 0: whole create |
@@ -880,7 +1081,7 @@ def op_kind(init, op, created):
         if i in created:
             return 'g-new'
         return 'g-miss' if i in init['db'] else 'g-nf'
-    return {'c': 'c', 'x': 'x', 'A': 'A', 'C': 'C'}[k]
+    return {'c': 'c', 'ca': 'c-auto', 'x': 'x', 'A': 'A', 'C': 'C'}[k]
 
 
 def case_kind(init, progs):
@@ -913,7 +1114,7 @@ def random_case(rng):
     for _ in range(3):
         p = []
         for _ in range(rng.randint(1, 3)):
-            k = rng.choice(['g', 'g', 'g', 'g', 'c', 'x', 'A', 'C'])
+            k = rng.choice(['g', 'g', 'g', 'g', 'c', 'ca', 'x', 'A', 'C'])
             if k == 'g':
                 p.append(('g', rng.choice([1, 2, 3, 4, 9])))
             elif k == 'x':
@@ -923,6 +1124,9 @@ def random_case(rng):
             else:
                 p.append((k,))
         progs.append(p)
+    if any(op[0] == 'ca' for p in progs for op in p):
+        # explicit and database-chosen ids in one run: keep the explicit ones far away from max(id)+1
+        progs = [[(('c', op[1] + 40) if op[0] == 'c' else op) for op in p] for p in progs]
     for t in range(3):
         for op in list(progs[t]):
             if op[0] == 'c' and rng.random() < 0.15:        # the create-vs-get race
@@ -935,6 +1139,8 @@ def random_case(rng):
                     if slots:
                         progs[u][rng.choice(slots)] = g
     sched = [rng.randint(0, 2) for _ in range(60)]
+    if rng.random() < 0.25:                   # the threads work on two or three classes of the connection
+        init = dict(init, tcls=[rng.randint(0, 2) for _ in range(3)])
     return init, progs, sched
 
 
@@ -946,16 +1152,26 @@ class Runner:
         self.ctx = ctx
         self.pending = []          # (case, canonical real outcome, request line, number of pinned objects)
         self.reported = set()      # oracle keys already passed on
+        self.n = 0
 
     def one(self, init, progs, sched, origin=None):
         """-> (raw result, oracle failures) or (None, None) when the harness itself failed"""
         ctx = self.ctx
         case = case_dict(init, progs, sched)
+        if 'conn' not in init:                     # rotate through the ways of configuring the connection
+            init = dict(init, conn=self.n % len(CONN_VARIANTS))
+            self.n += 1
+            case = case_dict(init, progs, sched)
         try:
             r = run_real(init, progs, sched)
-            cr = canon_real(r)
-            fails = oracle(init, progs, r)
-            line = model_line(init, progs, sched)
+            fails = oracle_all(init, progs, r)
+            parts = []
+            for k in range(len(r['classes'])):
+                if k not in r['tcls']:
+                    continue               # no thread works on this class
+                init_k, sub, sched_k, r_k = project(init, progs, sched, r, k)
+                parts.append((canon_real(r_k), model_line(init_k, sub, sched_k), pin_objs(init_k)))
+            cr = parts[0][0] if parts else canon_real(r)
         except Exception as ex:          # not expected: the real code's exceptions are outcomes inside run_real
             key = 'C09:harness-exception:' + type(ex).__name__
             if key not in self.reported:
@@ -970,7 +1186,8 @@ class Runner:
             if key not in self.reported:
                 self.reported.add(key)
                 ctx.oracle_fail(key, what, case)
-        self.pending.append((case, cr, line, pin_objs(init)))
+        for cr_k, line_k, pins_k in parts:
+            self.pending.append((case, cr_k, line_k, pins_k))
         if len(self.pending) >= self.BATCH:
             self.flush()
         return r, fails
@@ -1043,13 +1260,35 @@ def run(ctx):
                     continue          # the unreferenced instances only matter to the ops that move / probe them
                 if tag == 'nocache' and (('C',) in (op_a, op_b)):
                     continue          # cull() is unreachable with doCache=False
+                if not thorough and tag in DUPLICATE_GETS and ({op_a, op_b} & DUPLICATE_GETS[tag]) \
+                        and {op_a, op_b} != {('g', 1), ('g', 4)}:
+                    continue          # in this state the op is the same KIND of get as ('g', 1): keep it only against it
                 progs = [[op_a], [op_b]]
                 if op_a[0] == 'c' and op_b[0] == 'c':
                     progs = [[op_a], [('c', 8)]]          # two creates never share an id
                 two_thread_schedules(lambda sched: run_.one(init, progs, sched)[0], cap)
 
+    # 3b. the database chooses the ids: two creates (and a create against the other operations) on the shared raw
+    #     connection, every statement a scheduling point
+    for init in (WARM, COLD, NOCACHE):
+        for other in (('ca',), ('c', 47), ('g', 1), ('g', 5), ('g', 9), ('A',)):
+            if init is not WARM and not thorough and other not in (('ca',), ('g', 5)):
+                continue
+            two_thread_schedules(lambda sched: run_.one(init, [[('ca',)], [other]], sched)[0], cap)
+
+    # 3c. two threads, each the FIRST user of a different class on the connection (the classes share the CacheSet and
+    #     nothing else), overlapping ids
+    for init in (COLD, NOCACHE_COLD, WARM):
+        for n, (op_a, op_b) in enumerate(((('g', 1), ('g', 1)), (('g', 1), ('c', 7)), (('c', 7), ('c', 7)),
+                                          (('g', 1), ('g', 9)), (('ca',), ('ca',)), (('g', 1), ('x', 1)),
+                                          (('g', 1), ('A',)))):
+            if not thorough and n >= (5 if init is COLD else 2):
+                continue
+            two_thread_schedules(
+                lambda sched: run_.one(dict(init, tcls=[0, 1]), [[op_a], [op_b]], sched)[0], cap)
+
     # 4. random: 3 threads, random schedules
-    for _ in range(ctx.budget(1500, 40000)):
+    for _ in range(ctx.budget(1200, 40000)):
         init, progs, sched = random_case(ctx.rng)
         run_.one(init, progs, sched)
     run_.flush()
@@ -1059,11 +1298,14 @@ def replay(case):
     env()
     init, progs, sched = case['init'], as_ops(case['progs']), list(case['sched'])
     r = run_real(init, progs, sched)
-    cr = canon_real(r)
-    fails = oracle(init, progs, r)
-    text = ['state %s, programs %s, schedule %s' % (init_tag(init), progs_str(progs), ','.join(map(str, sched)) or '-'),
-            'real cache.py:'] + ['  %-10s %s' % (k, cr[k]) for k in ('outs', 'lock', 'strong', 'weak', 'unfinished',
-                                                                      'cc', 'off', 'tr')]
+    fails = oracle_all(init, progs, r)
+    text = ['state %s, programs %s, schedule %s, connection configured by %r'
+            % (init_tag(init), progs_str(progs), ','.join(map(str, sched)) or '-',
+               CONN_VARIANTS[init.get('conn', 0) % len(CONN_VARIANTS)] or 'python booleans')]
+    for k in range(len(r['classes'])):
+        cr = canon_real(project(init, progs, sched, r, k)[3])
+        text += ['real code, class %d (threads %s):' % (k, [t for t, c in enumerate(r['tcls']) if c == k])] + \
+                ['  %-10s %s' % (key, cr[key]) for key in ('outs', 'lock', 'strong', 'weak', 'unfinished', 'cc', 'off', 'tr')]
     text.append('oracle: ' + ('all five clauses hold' if not fails else '%d failure(s)' % len(fails)))
     for key, what in fails:
         text.append('  %s: %s' % (key, what))
